@@ -842,6 +842,330 @@ pub fn map_scenario(out: &mut String, rng: &mut Rng, cases: usize) {
     }
 }
 
+// ---------------------------------------------------------------- C16 / C17 / C18 profiles
+
+/// a clock over actors 0..=n (actor n never acts: an entry the state does not have), counters 1..=maxc;
+/// occasionally a stored zero (the argument of reset_remove need not be well-formed)
+fn rr_clock(rng: &mut Rng, n: usize, maxc: usize) -> String {
+    let mut v = vec![];
+    for a in 0..=n as u64 {
+        if rng.chance(if a == n as u64 { 1 } else { 3 }, 5) {
+            let k = if rng.chance(1, 12) { 0 } else { 1 + rng.below(maxc) as u64 };
+            v.push((a, k));
+        }
+    }
+    clock_str(&v)
+}
+
+/// C18 `rr_hist`: API-generated histories (per-actor order on deliveries, duplicates, merges, snapshots) of
+/// vclock / gcounter / pncounter / mvreg / orswot with `reset_remove` under clocks below, above and concurrent with the
+/// state (`RR`), the replica's own read clock (`RRS`), the same clock twice in a row (idempotence), two clocks in a
+/// row, the law oracle `RRL` (c1 then c2 = join, twice = once, empty = identity, order irrelevant), and – for orswot –
+/// pending removes whose contexts collide after subtraction ({0:5,1:1} and {0:6,1:1}, then `RR {0:7}`), followed by
+/// the add that lets the united pending remove fire.
+pub fn rr_hist(out: &mut String, rng: &mut Rng, cases: usize) {
+    const TYPES: [&str; 5] = ["vclock", "gcounter", "pncounter", "mvreg", "orswot"];
+    for case in 0..cases {
+        let ty = TYPES[case % 5];
+        let n = 2 + rng.below(2);
+        writeln!(out, "T {} {}", ty, n).unwrap();
+        let mut author: Vec<usize> = vec![];
+        let mut know: Vec<Vec<bool>> = vec![vec![]; n];
+        let mut snaps: Vec<Vec<bool>> = vec![];
+        let mut collided = false;
+        if ty == "orswot" && rng.chance(1, 3) {
+            // deliberate collision of two pending removes (hand-made future contexts, as in the repo's own tests)
+            let r = rng.below(n);
+            let (m1, m2) = (rng.below(3), rng.below(3));
+            if rng.chance(1, 2) {
+                writeln!(out, "G {} x0 add {}", r, m1).unwrap();
+            }
+            writeln!(out, "G {} c0 rmctx {} {{0:5,1:1}}", r, m1).unwrap();
+            writeln!(out, "G {} c1 rmctx {} {{0:6,1:1}}", r, m2).unwrap();
+            if rng.chance(1, 2) {
+                writeln!(out, "G {} c2 rmctx {} {{0:6,1:1,2:1}}", r, rng.below(3)).unwrap();
+            }
+            writeln!(out, "RRL {} {{0:7}} {}", r, rr_clock(rng, n, 3)).unwrap();
+            writeln!(out, "RR {} {{0:7}}", r).unwrap();
+            writeln!(out, "RR {} {{0:7}}", r).unwrap();
+            writeln!(out, "O z0 add 1.1 [{},{}]", m1, m2).unwrap();
+            writeln!(out, "D {} z0", r).unwrap();
+            collided = true;
+        }
+        let steps = if collided { rng.below(10) } else { 6 + rng.below(20) };
+        for _ in 0..steps {
+            let r = rng.below(n);
+            let x = rng.below(100);
+            if x < 30 {
+                let args = match ty {
+                    "vclock" => "inc".to_string(),
+                    "gcounter" => {
+                        if rng.chance(1, 2) { "inc".to_string() } else { format!("incmany {}", rng.below(4)) }
+                    }
+                    "pncounter" => match rng.below(4) {
+                        0 => "inc".to_string(),
+                        1 => "dec".to_string(),
+                        2 => format!("incmany {}", rng.below(4)),
+                        _ => format!("decmany {}", rng.below(4)),
+                    },
+                    "mvreg" => format!("write {}", 5 + 2 * rng.below(2)),
+                    _ => orswot_args(rng, r),
+                };
+                let id = author.len();
+                author.push(r);
+                for k in know.iter_mut().chain(snaps.iter_mut()) {
+                    k.resize(id + 1, false);
+                }
+                know[r][id] = true;
+                writeln!(out, "G {} o{} {}", r, id, args).unwrap();
+            } else if x < 55 {
+                // deliver in each author's own order
+                let cands: Vec<usize> = (0..author.len())
+                    .filter(|j| !know[r][*j] && (0..*j).all(|i| author[i] != author[*j] || know[r][i]))
+                    .collect();
+                if !cands.is_empty() {
+                    let j = cands[rng.below(cands.len())];
+                    know[r][j] = true;
+                    writeln!(out, "D {} o{}", r, j).unwrap();
+                }
+            } else if x < 59 {
+                let cands: Vec<usize> = (0..author.len()).filter(|j| know[r][*j]).collect();
+                if !cands.is_empty() {
+                    writeln!(out, "D {} o{}", r, cands[rng.below(cands.len())]).unwrap();
+                }
+            } else if x < 67 {
+                let r2 = rng.below(n);
+                let k2 = know[r2].clone();
+                for (i, b) in k2.iter().enumerate() {
+                    if *b {
+                        know[r][i] = true;
+                    }
+                }
+                writeln!(out, "M {} {}", r, r2).unwrap();
+            } else if x < 71 {
+                if snaps.is_empty() || rng.chance(1, 2) {
+                    snaps.push(know[r].clone());
+                    writeln!(out, "S {} s{}", r, snaps.len() - 1).unwrap();
+                } else {
+                    let sidx = rng.below(snaps.len());
+                    let k2 = snaps[sidx].clone();
+                    for (i, b) in k2.iter().enumerate() {
+                        if *b {
+                            know[r][i] = true;
+                        }
+                    }
+                    writeln!(out, "MS {} s{}", r, sidx).unwrap();
+                }
+            } else if x < 79 {
+                writeln!(out, "RR {} {}", r, rr_clock(rng, n, 4)).unwrap();
+            } else if x < 83 {
+                // the same clock twice in a row: the second call must change nothing
+                let c = rr_clock(rng, n, 4);
+                writeln!(out, "RR {} {}", r, c).unwrap();
+                writeln!(out, "RR {} {}", r, c).unwrap();
+            } else if x < 86 {
+                writeln!(out, "RRS {}", r).unwrap();
+            } else if x < 93 {
+                writeln!(out, "RRL {} {} {}", r, rr_clock(rng, n, 4), rr_clock(rng, n, 4)).unwrap();
+            } else if x < 95 {
+                writeln!(out, "RR {} {}", r, rr_clock(rng, n, 3)).unwrap();
+                writeln!(out, "RR {} {}", r, rr_clock(rng, n, 6)).unwrap();
+            } else if x < 97 {
+                // a clock above everything the history can have produced
+                let v: Vec<(u64, u64)> = (0..n as u64).map(|a| (a, 40)).collect();
+                writeln!(out, "RR {} {}", r, clock_str(&v)).unwrap();
+            } else if x < 98 {
+                writeln!(out, "RR {} {{}}", r).unwrap();
+            } else {
+                writeln!(out, "EQ {} {}", r, rng.below(n)).unwrap();
+            }
+        }
+        writeln!(out, "E").unwrap();
+    }
+}
+
+/// C17 `orswot_vm`: `validate_merge` in both directions before merges, between arbitrary replicas and against
+/// snapshots.  Case kinds: 0,1 = correct use with single-member adds only (`add`; removes of any shape) – the verdict
+/// must be `ok`; 2 = misuse: some adds are generated with another replica's actor id (`GA`), so one dot can end up on
+/// two different members – `dsd` expected where that happens; 3 = `add_all` with two or more members (correct use,
+/// flagged by the crate – known defect; model correspondence).
+pub fn orswot_vm(out: &mut String, rng: &mut Rng, cases: usize) {
+    for case in 0..cases {
+        let kind = case % 4;
+        let n = 2 + rng.below(3);
+        writeln!(out, "T orswot {}", n).unwrap();
+        let mut author: Vec<usize> = vec![];
+        let mut know: Vec<Vec<bool>> = vec![vec![]; n];
+        let mut snaps: Vec<Vec<bool>> = vec![];
+        let steps = 6 + rng.below(18);
+        for _ in 0..steps {
+            let r = rng.below(n);
+            let x = rng.below(100);
+            if x < 32 {
+                let id = author.len();
+                let mut actor = r;
+                let args = match rng.below(12) {
+                    0..=5 => format!("add {}", rng.below(4)),
+                    6 | 7 => format!("rm {}", rng.below(4)),
+                    8 => format!("rmread {}", rng.below(4)),
+                    9 => format!("rmall {}", nat_list(rng, 4, 3)),
+                    10 => {
+                        let mut v = vec![];
+                        for a in 0..n as u64 {
+                            if rng.chance(1, 2) {
+                                v.push((a, 1 + rng.below(3) as u64));
+                            }
+                        }
+                        format!("rmctx {} {}", rng.below(4), clock_str(&v))
+                    }
+                    _ => {
+                        if kind == 3 {
+                            format!("addall {}", nat_list(rng, 4, 3))
+                        } else {
+                            format!("add {}", rng.below(4))
+                        }
+                    }
+                };
+                if kind == 3 && rng.chance(1, 4) {
+                    let a = rng.below(4);
+                    let b = (a + 1 + rng.below(3)) % 4;
+                    writeln!(out, "G {} o{} addall [{},{}]", r, id, a, b).unwrap();
+                } else if kind == 2 && rng.chance(1, 3) {
+                    actor = rng.below(n);
+                    writeln!(out, "GA {} {} o{} add {}", r, actor, id, rng.below(4)).unwrap();
+                } else {
+                    writeln!(out, "G {} o{} {}", r, id, args).unwrap();
+                }
+                author.push(actor);
+                for k in know.iter_mut().chain(snaps.iter_mut()) {
+                    k.resize(id + 1, false);
+                }
+                know[r][id] = true;
+            } else if x < 60 {
+                let cands: Vec<usize> = (0..author.len())
+                    .filter(|j| !know[r][*j] && (0..*j).all(|i| author[i] != author[*j] || know[r][i]))
+                    .collect();
+                if !cands.is_empty() {
+                    let j = cands[rng.below(cands.len())];
+                    know[r][j] = true;
+                    writeln!(out, "D {} o{}", r, j).unwrap();
+                }
+            } else if x < 64 {
+                let cands: Vec<usize> = (0..author.len()).filter(|j| know[r][*j]).collect();
+                if !cands.is_empty() {
+                    writeln!(out, "D {} o{}", r, cands[rng.below(cands.len())]).unwrap();
+                }
+            } else if x < 76 {
+                // validate in both directions, then merge
+                let r2 = rng.below(n);
+                writeln!(out, "VM {} {}", r, r2).unwrap();
+                writeln!(out, "VM {} {}", r2, r).unwrap();
+                let k2 = know[r2].clone();
+                for (i, b) in k2.iter().enumerate() {
+                    if *b {
+                        know[r][i] = true;
+                    }
+                }
+                writeln!(out, "M {} {}", r, r2).unwrap();
+            } else if x < 84 {
+                if snaps.is_empty() || rng.chance(1, 2) {
+                    snaps.push(know[r].clone());
+                    writeln!(out, "S {} s{}", r, snaps.len() - 1).unwrap();
+                } else {
+                    let sidx = rng.below(snaps.len());
+                    writeln!(out, "VS {} s{}", r, sidx).unwrap();
+                    let k2 = snaps[sidx].clone();
+                    for (i, b) in k2.iter().enumerate() {
+                        if *b {
+                            know[r][i] = true;
+                        }
+                    }
+                    writeln!(out, "MS {} s{}", r, sidx).unwrap();
+                }
+            } else {
+                let r2 = rng.below(n);
+                writeln!(out, "VM {} {}", r, r2).unwrap();
+                writeln!(out, "VM {} {}", r2, r).unwrap();
+            }
+        }
+        // all pairs at the end
+        for a in 0..n {
+            for b in 0..n {
+                writeln!(out, "VM {} {}", a, b).unwrap();
+            }
+        }
+        if kind < 2 {
+            writeln!(out, "E").unwrap();
+        }
+    }
+}
+
+/// C16 `validate_hist`: `V <r> <op>` for arbitrary ops of the history – deliverable, already applied (also at the
+/// origin) and out-of-order ones – on orswot (adds in author order; one case in four with arbitrary delivery order),
+/// list (causal delivery), vclock (any order) and lwwreg (unique markers; also `VM`).
+pub fn validate_hist(out: &mut String, rng: &mut Rng, cases: usize) {
+    let per = (cases + 3) / 4;
+    for i in 0..per {
+        let mut h = Hist::new("orswot", if i % 4 == 3 { Disc::Any } else { Disc::Fifo });
+        h.max_rep = 4;
+        h.max_steps = 24;
+        h.w_gen = 34;
+        h.w_deliver = 22;
+        h.w_validate = 40;
+        h.w_merge = 6;
+        h.w_snap = 3;
+        h.w_dup = 5;
+        h.end_oracle = i % 4 != 3;
+        history(out, rng, &h, &mut |r, rep| match r.below(6) {
+            0..=3 => format!("add {}", r.below(3)),
+            _ => orswot_args(r, rep),
+        });
+    }
+    let mut val = 0u64;
+    for i in 0..per {
+        let mut h = Hist::new("list", Disc::Causal);
+        h.max_rep = 3;
+        h.max_steps = 24;
+        h.w_validate = 40;
+        h.w_dup = 6;
+        h.flush = i % 2 == 0;
+        history(out, rng, &h, &mut |r, _| {
+            val += 1;
+            match r.below(10) {
+                0..=5 => format!("ins {} {}", r.below(4), val % 50),
+                6 => format!("append {}", val % 50),
+                _ => format!("del {}", r.below(3)),
+            }
+        });
+        if i % 5 == 0 {
+            // an insert op carrying the empty identifier: `op.dot()` panics inside validate_op
+            writeln!(out, "O e0 I[]=7").unwrap();
+            writeln!(out, "V 0 e0").unwrap();
+        }
+    }
+    for _ in 0..per {
+        let mut h = Hist::new("vclock", Disc::Any);
+        h.max_rep = 4;
+        h.w_deliver = 22;
+        h.w_validate = 40;
+        h.w_merge = 8;
+        h.w_snap = 3;
+        history(out, rng, &h, &mut |_, _| "inc".to_string());
+    }
+    let mut step = 0u64;
+    for _ in 0..per {
+        let mut h = Hist::new("lwwreg", Disc::Any);
+        h.w_validate = 30;
+        h.w_vmerge = 12;
+        h.w_merge = 8;
+        h.w_snap = 4;
+        history(out, rng, &h, &mut |r, rep| {
+            step += 1;
+            format!("write {} {}", r.below(4), (r.below(6) as u64) * 10000 + step * 8 + rep as u64)
+        });
+    }
+}
+
 pub fn main(args: &[String]) {
     let profile = args.first().map(|s| s.as_str()).unwrap_or("");
     let seed: u64 = args.get(1).and_then(|s| s.parse().ok()).unwrap_or(1);
@@ -1187,6 +1511,9 @@ pub fn main(args: &[String]) {
             hist_cases(&mut out, &mut rng, &mk(false), cases - a, &mut |r, _| format!("write {}", 5 + 2 * r.below(2)));
         }
         "mvreg_raw" => mvreg_raw(&mut out, &mut rng, cases),
+        "rr_hist" => rr_hist(&mut out, &mut rng, cases),
+        "orswot_vm" => orswot_vm(&mut out, &mut rng, cases),
+        "validate_hist" => validate_hist(&mut out, &mut rng, cases),
         _ => {
             eprintln!("unknown profile {profile}");
             std::process::exit(2);
